@@ -35,3 +35,6 @@ add("C11", "exploration", "exhaustive enumeration of (start,end) pairs over a bo
 add("C12", "exploration", "bounded-exhaustive enumeration of ranges x N x direction, differential against the unlimited query",
     "the C11 fixtures x 12 ranges (thorough: every 3rd start x every 2nd end) x N in 1..rows+2 x both directions; limited result must be the prefix/suffix of the unlimited result",
     TB + "; UTC", "seqmc")
+add("C13", "exploration", "bounded-exhaustive enumeration of symbol lists x column lists through DataService.Query, differential against single-symbol queries",
+    "every ordered subset of 3 same-schema symbols (also with a missing symbol, with a retyped symbol, and '*') x every ordered column tuple of length 0-3 over {Open,Close,Volume,Nope}, fixed and variable buckets; per symbol the rows, column set and values must equal the single-symbol query",
+    TB + "; UTC", "seqmc")
